@@ -29,6 +29,7 @@ import time
 import traceback
 
 from . import shrink as SH
+from . import probes as PR
 
 VERIF = os.path.dirname(os.path.dirname(os.path.dirname(os.path.abspath(__file__))))
 REPLAYS = os.path.join(os.environ['AHRS_SIM_EVIDENCE_DIR'], 'replays') if os.environ.get('AHRS_SIM_EVIDENCE_DIR') else os.path.join(VERIF, 'replays')
@@ -100,7 +101,15 @@ def _run_one(job):
         else:
             _, scn, seed = job
             twice = False
-        res = check.run(scn)
+        idx = seed if isinstance(seed, int) else (int(seed[4:]) if isinstance(seed, str) and seed.startswith('enum') else 1)
+        probed = idx % 8 == 0 and PR.start()
+        try:
+            res = check.run(scn)
+        finally:
+            hits = PR.stop() if probed else None
+        if probed:
+            res.setdefault('stats', {})['probe_runs'] = 1
+            res['stats']['probes'] = hits
         out = {'seed': seed, 'digest': res['digest'], 'stats': res.get('stats', {}), 'sig': res.get('sig'),
                'sim_seconds': res.get('sim_seconds', 0.0), 'violations': res['violations'], 'harness_error': None}
         if twice:
@@ -207,6 +216,7 @@ def run_check(check, tier='quick', seed0=0, workers=None, runs=None, wall_cap=No
     n_runs = runs if runs is not None else check.runs(tier)
     wall_cap = wall_cap or check.wall_cap(tier)
     known = load_known(pid)
+    PR.resolve(os.environ.get('AHRS_SIM_REPO', '/repo'))
     print(f'[{pid}] tier={tier} VERIF_SEED={seed0} runs={n_runs} workers={workers} tree={tree_hash()}', flush=True)
 
     jobs = []
@@ -364,6 +374,11 @@ def run_check(check, tier='quick', seed0=0, workers=None, runs=None, wall_cap=No
             'stats': agg,
             'determinism': {'seeds_rechecked': det_checked, 'mismatches': len(det_fail)},
             'components': check.components,
+            'rare_branch_probes': {'probed_runs': agg.get('probe_runs', 0),
+                                   'hits': {n: agg.get('probes', {}).get(n, 0) for n in PR.all_names() if agg.get('probes', {}).get(n, 0)},
+                                   'never_hit_in_this_run': [n for n in PR.all_names() if not agg.get('probes', {}).get(n, 0)],
+                                   'unresolved': PR.unresolved(),
+                                   'note': 'source lines of /repo counted with sys.monitoring on every 8th seeded run; a probe irrelevant to this property stays at 0'},
             'known_findings_reproduced': sorted(known_hits),
             'workers': workers,
             'tree_hash': tree_hash(),
